@@ -72,7 +72,8 @@ def is_older_than(before, seconds):
 
     before = normalize_time(before)
 
-    return utcnow() - before > datetime.timedelta(seconds=seconds)
+    return (normalize_time(utcnow()) - before >
+            datetime.timedelta(seconds=seconds))
 
 
 def is_newer_than(after, seconds):
@@ -87,7 +88,8 @@ def is_newer_than(after, seconds):
 
     after = normalize_time(after)
 
-    return after - utcnow() > datetime.timedelta(seconds=seconds)
+    return (after - normalize_time(utcnow()) >
+            datetime.timedelta(seconds=seconds))
 
 
 def utcnow_ts(microsecond=False):
@@ -107,7 +109,9 @@ def utcnow_ts(microsecond=False):
         return timestamp
 
     now = utcnow()
-    timestamp = calendar.timegm(now.timetuple())
+    # utctimetuple() so that an override given as an aware datetime is taken
+    # as the instant it denotes (it equals timetuple() for naive values)
+    timestamp = calendar.timegm(now.utctimetuple())
 
     if microsecond:
         timestamp += float(now.microsecond) / 1000000
@@ -250,7 +254,7 @@ def is_soon(dt, window):
 
     :return: True if expiration is within the given duration
     """
-    soon = (utcnow() + datetime.timedelta(seconds=window))
+    soon = (normalize_time(utcnow()) + datetime.timedelta(seconds=window))
     return normalize_time(dt) <= soon
 
 
